@@ -20,14 +20,17 @@ RULE = ('(1) exhaustive: every string of <= 4 characters over each notation\'s a
         'character, parsed by a fresh parser; (2) Hypothesis text over alphabet + foreign characters, and grammar mutations of valid '
         'renderings (delete / duplicate / swap / insert a character, unbalance a parenthesis, digit runs up to 6000); (3) predicate '
         'stores: empty, drawn, frozen empty, auto_preds on / off; (4) histories: 0-5 earlier parses on the same parser, then the same '
-        'string on a fresh parser holding a copy of the store; (5) atheris / libFuzzer byte-level target (thorough tier; empty corpus '
+        'string on a fresh parser holding a copy of the store, optionally with an unrelated second parser (own store, either notation) used in '
+        'between; the standard parser also with drop_parens=False (then every binary operator needs its parentheses); (4b) deep nesting: 8 shapes '
+        'per notation (prefix chains, left / right nested binaries, quantified, ill-formed) at every depth 1..H and 8 stack alignments with the '
+        'recursion limit lowered to current depth + H, so that the stack is exhausted at every possible point of the parse; (5) atheris / libFuzzer byte-level target (thorough tier; empty corpus '
         'and the literal strings of test/lang as seeds). Oracle: the result is a Sentence or the exception is a ParseError (subclasses '
         'included), nothing else; a returned sentence passes an independent walker (closed, every quantifier\'s variable occurs in its '
         'scope ...) and accounts for exactly the symbols (with subscripts) and parentheses of the input; '
         'scope, no variable bound twice on a path, arity = number of parameters); the fresh parser gives the same sentence / the same '
         'error class and ends with an equal store. Non-trivial = an accepted string, or one rejected at a position >= 2; distinct by '
         '(notation, string, store, history).')
-ASSUMPTIONS = ['recursion depth is the interpreter\'s bound, not the parser\'s: generated nesting stays far below it']
+ASSUMPTIONS = ['stack exhaustion is part of the input space: sys.setrecursionlimit is lowered (and restored) by the deep-nesting part so that it is reached cheaply']
 
 STD_ALPHA = '*~&V><$%PNXL!=xyzvabcdFGHOABCDE() '
 POL_ALPHA = 'TNKACEUBMLSVJIxyzvmnosFGHOabcde '
@@ -119,7 +122,7 @@ def store_of(parser):
     return sorted(A.pred_from_lib(p) for p in parser.predicates)
 
 
-def check_string(notation, text, store=None, auto=True, frozen=False, history=(), strict=False):
+def check_string(notation, text, store=None, auto=True, frozen=False, history=(), strict=False, bystander=None):
     """Returns (violations, info)."""
     out = []
     info = dict(accepted=False, errpos=None)
@@ -134,11 +137,24 @@ def check_string(notation, text, store=None, auto=True, frozen=False, history=()
     except Exception as e:
         bad(f'harness-store|{type(e).__name__}', repr(e))
         return out, info
+    # an unrelated parser (own store, possibly the other notation) used in between must not matter either
+    other = None
+    if bystander:
+        try:
+            other = make_parser(bystander['notation'], bystander.get('store'), True, False)
+        except Exception as e:
+            bad(f'harness-store|{type(e).__name__}', repr(e))
+            return out, info
     for h in history:
         o = outcome(p, h)
         if o[0] == 'BAD':
             bad(f'raises|{notation}|{o[1]}', f'earlier input {show(h)}: {o[2]}')
+        if other is not None:
+            outcome(other, h)
     before = store_of(p)
+    if other is not None:
+        for h in bystander.get('inputs', ()):
+            outcome(other, h)
     o = outcome(p, text)
     if o[0] == 'BAD':
         bad(f'raises|{notation}|{o[1]}', o[2])
@@ -349,14 +365,19 @@ def run_random(shard, acc):
         if frozen:
             history = []
         strict = notation == 'standard' and data.draw(st.integers(0, 3)) == 0
-        res, info = check_string(notation, text, store, auto, frozen, history, strict)
+        bystander = None
+        if history and data.draw(st.booleans()):
+            bn = data.draw(st.sampled_from(['polish', 'standard']))
+            bystander = dict(notation=bn, store=[[i, 0, data.draw(st.integers(1, 3))] for i in range(data.draw(st.integers(0, 3)))],
+                             inputs=[valid_renderings(data, bn) for _ in range(data.draw(st.integers(0, 2)))])
+        res, info = check_string(notation, text, store, auto, frozen, history, strict, bystander)
         # strings of <= 4 characters are already counted by the exhaustive part
         nontriv = (info['accepted'] or (info['errpos'] or 0) >= 2) and len(text) > 4
-        acc.case((notation, text, store, auto, frozen, history, strict), nontrivial=nontriv,
-                 classes=(*(('drop_parens=False',) if strict else ()), 'accepted' if info['accepted'] else 'rejected', f'mode={mode}', f'store={storekind}', 'with-history' if history else 'no-history'),
+        acc.case((notation, text, store, auto, frozen, history, strict, repr(bystander)), nontrivial=nontriv,
+                 classes=(*(('with-bystander-parser',) if bystander else ()), *(('drop_parens=False',) if strict else ()), 'accepted' if info['accepted'] else 'rejected', f'mode={mode}', f'store={storekind}', 'with-history' if history else 'no-history'),
                  sample=f'{notation}: {show(text)} store={store} auto={auto} history={len(history)} -> {"accepted" if info["accepted"] else "rejected"}')
         for fp, d in res:
-            acc.finding(fp, dict(kind='check', notation=notation, text=text, store=store, auto=auto, frozen=frozen, history=history, strict=strict), d)
+            acc.finding(fp, dict(kind='check', notation=notation, text=text, store=store, auto=auto, frozen=frozen, history=history, strict=strict, bystander=bystander), d)
     body()
 
 
@@ -519,7 +540,7 @@ def replay(case):
     if case['kind'] == 'string':
         return check_string(case['notation'], case['text'])[0]
     return check_string(case['notation'], case['text'], case.get('store'), case.get('auto', True), case.get('frozen', False),
-                        case.get('history', ()), case.get('strict', False))[0]
+                        case.get('history', ()), case.get('strict', False), case.get('bystander'))[0]
 
 
 def shrink_candidates(case):
